@@ -56,12 +56,20 @@ where
     ) -> Result<ChangeData<T>> {
         let prev_stamp = c.read_stamp()?;
         let prev_stored_len = c.read_u64()?;
-        c.skip(SIZE_OF_U64)?; // stored_len, not needed for rollback
+        let stored_len = c.read_u64()?; // only used to cross-check the other lengths
         let truncated_count = c.read_u64()?;
 
         let truncated_start = prev_stored_len
             .checked_sub(truncated_count)
             .ok_or(Error::Underflow)?;
+        // The writer records truncated = prev_stored_len - stored_len (saturating), so the
+        // untouched prefix can never be longer than what was stored after the commit.
+        if truncated_start > stored_len {
+            return Err(Error::WrongLength {
+                expected: stored_len,
+                received: truncated_start,
+            });
+        }
         let truncated_values = c.read_values(truncated_count, size_of_t, &read_value)?;
 
         let prev_pushed_len = c.read_u64()?;
